@@ -16,6 +16,8 @@ type varWorld struct {
 	typ string
 	ue  bool // address the variable by "pkg.name"
 	b   map[string]*mocker.Builder
+	h   map[string]mocker.VarMock // value the last lookup returned, per builder/variable (kept handles)
+	via string
 }
 
 func (w *varWorld) Name() string {
@@ -45,18 +47,31 @@ func (w *varWorld) builder(b string) *mocker.Builder {
 	return w.b[b]
 }
 
-func (w *varWorld) Begin() { w.b = map[string]*mocker.Builder{} }
+func (w *varWorld) Begin() {
+	w.b = map[string]*mocker.Builder{}
+	w.h = map[string]mocker.VarMock{}
+}
 
 func (w *varWorld) mock(b, x string) mocker.VarMock {
-	typ, n := w.bind(x)
-	if w.ue {
-		return w.builder(b).UnExportedVar(vars.Name(typ, n))
+	if w.via == "held" {
+		if h, ok := w.h[b+"/"+x]; ok {
+			return h
+		}
 	}
-	return w.builder(b).Var(vars.Ptr(typ, n))
+	typ, n := w.bind(x)
+	var h mocker.VarMock
+	if w.ue {
+		h = w.builder(b).UnExportedVar(vars.Name(typ, n))
+	} else {
+		h = w.builder(b).Var(vars.Ptr(typ, n))
+	}
+	w.h[b+"/"+x] = h
+	return h
 }
 
 func (w *varWorld) Do(st Step) string {
 	return catch(func() {
+		w.via = st.Str("via")
 		switch st.Str("op") {
 		case "VarSet":
 			typ, _ := w.bind(st.Str("x"))
